@@ -76,6 +76,9 @@ func cmacVariant(v string) aescmac.Variant {
 // build constructs the real primitive for c with the given key bytes; ok=false when the
 // library refuses the configuration (logged, not judged: DESIGN section 4).
 func build(c cfg, key []byte) (tink.MAC, error) {
+	if c.Route == "legacy" {
+		return buildLegacy(c, key)
+	}
 	if c.Route == "subtle" {
 		if c.Alg == "HMAC" {
 			return subtle.NewHMAC(c.Hash, key, uint32(c.TagSize))
@@ -266,6 +269,15 @@ func main() {
 		cfgs = append(cfgs, cfg{"CMAC", "", 32, t, "NO_PREFIX", 0, "subtle"})
 		cfgs = append(cfgs, cfg{"CMAC", "", 16, t, "NO_PREFIX", 0, "subtle"})
 	}
+	// the factory's adapter around a non-full (legacy key manager) primitive: every variant, both algorithms
+	for vi, v := range variants {
+		for hi, h := range hashes {
+			if full || (hi+vi+int(vt.Seed()))%2 == 0 {
+				cfgs = append(cfgs, cfg{"HMAC", h, 16 + 16*vi, 10 + (hi+vi)%(digest[h]-9), v, ids[(vi+hi)%len(ids)], "legacy"})
+			}
+		}
+		cfgs = append(cfgs, cfg{"CMAC", "", 32, 10 + vi*2, v, ids[(vi+3)%len(ids)], "legacy"})
+	}
 	// configurations the library is expected to refuse (recorded as coverage, not judged)
 	refused := []cfg{
 		{"HMAC", "SHA256", 15, 16, "TINK", 1, "factory"}, {"HMAC", "SHA256", 32, 9, "TINK", 1, "factory"},
@@ -368,7 +380,7 @@ func main() {
 					verify("msgtrunc", tag, msg[:n-1])
 				}
 				verify("msgext0", tag, append(append([]byte{}, msg...), 0))
-				if len(tag) > 5 && c.Variant != "NO_PREFIX" && c.Route == "factory" {
+				if len(tag) > 5 && c.Variant != "NO_PREFIX" && c.Route != "subtle" {
 					t := append([]byte{}, tag...)
 					t[0] ^= 1 // TINK <-> CRUNCHY/LEGACY start byte
 					verify("prefixswap", t, msg)
